@@ -276,3 +276,9 @@ impl fmt::Debug for DataFlags {
             .finish()
     }
 }
+
+#[cfg(feature = "verif")]
+#[allow(missing_docs, dead_code, unused_imports)]
+pub(crate) mod verif_h {
+    include!(concat!(env!("H2_VERIF_DIR"), "/harness/frame/data.rs"));
+}
